@@ -19,7 +19,7 @@ def run(tier, replay=None):
 
     # 1. design: refinement for all streams up to MaxLen
     cfg = os.path.join(wd, "mc.cfg")
-    vlib.write_cfg(cfg, "Spec", {"Cap": cap_model, "MaxLen": 6 if tier == "quick" else 8}, ["Refines", "Coupled"], view="View")
+    vlib.write_cfg(cfg, "Spec", {"Cap": cap_model, "MaxLen": 6 if tier == "quick" else 8, "Small": False}, ["Refines", "Coupled"], view="View")
     r = vlib.model_check("MC_Transport.tla", cfg, workers=8, timeout=3000)
     if r["violated"]:
         raise ToolError("assembler model does not refine the property automaton: %s" % json.dumps(r["hist"]))
@@ -28,11 +28,20 @@ def run(tier, replay=None):
     # buffer minimum is 249 bytes, so payload sizes are scaled: n=1 -> 100 bytes, n=2 -> 149 bytes with cap 249+...
     # instead the real reader is configured with the smallest buffer (249) and sizes 1->83, 2->166 (3 units = 249)
     cfgs = os.path.join(wd, "sim.cfg")
-    vlib.write_cfg(cfgs, "Spec", {"Cap": cap_model, "MaxLen": 14}, ["Export"])
+    vlib.write_cfg(cfgs, "Spec", {"Cap": cap_model, "MaxLen": 14, "Small": False}, ["Export"])
     hists = vlib.simulate("MC_Transport.tla", cfgs, 100, 30, vlib.seed())
     cap_n = 600 if tier == "quick" else 8000
     if len(hists) > cap_n:
         hists = rnd.sample(hists, cap_n)
+    # abstract-transition cover: every (assembler state, last three segments) over the reduced alphabet and every
+    # (assembler state, last two segments) over the full one
+    cover_n = 0
+    for small, depth in ((True, 5), (False, 3 if tier == "quick" else 4)):
+        cfgc = os.path.join(wd, "cover_%s.cfg" % ("small" if small else "full"))
+        vlib.write_cfg(cfgc, "Spec", {"Cap": cap_model, "MaxLen": depth, "Small": small}, ["ExportAll"], view="CoverView")
+        ch, n = vlib.cover("MC_Transport.tla", cfgc, workers=8)
+        cover_n += n
+        hists = ch + hists
     scen = []
     for i, h in enumerate(hists):
         steps = []
@@ -105,7 +114,7 @@ def run(tier, replay=None):
            "rule": "segment streams exported by TLC from MC_Transport (every stream over the alphabet is explored in the design check; "
                    "a seeded sample is replayed on the real reader with payload sizes scaled to the 249-byte minimum buffer), "
                    "writer sweep over fragment lengths, round trips writer -> re-chunked bytes -> reader for several buffer sizes",
-           "writer_lengths": len(lens), "trace_lines": nlines, "monitor_violations": len(viols), "hangs": hangs,
+           "writer_lengths": len(lens), "abstract_transition_cover_pairs": cover_n, "trace_lines": nlines, "monitor_violations": len(viols), "hangs": hangs,
            "exhaustive": False}
     vlib.write_evidence(prop, tier, "model_checking", cov,
                         ["segment alphabet of the design check: sequence window {62,63,0,1}, two sources, broadcast flag, two payload sizes, capacity 3",
